@@ -1654,7 +1654,8 @@ where
 
                             // Release server back to the pool if we are in transaction mode.
                             // If we are in session mode, we keep the server until the client disconnects.
-                            if self.transaction_mode {
+                            // Another COPY of the same query may have started already.
+                            if self.transaction_mode && !server.in_copy_mode() {
                                 break;
                             }
                         }
